@@ -183,7 +183,7 @@ def run_t1(modules: list[str], keys: list[str] | None, prop: str, ctx, timeout_m
             cr = o["cross"]
             res.standins.append(StandIn(contract=f"native monitor of {key}", tier="T3", bound=f"{cr['evaluations']} seeded random inputs satisfying requires", evaluations=cr["evaluations"], distinct_nontrivial=cr["distinct"], samples=cr["samples"], notes="CPython cross-check of the contract and of the encoding"))
             for f in cr["fails"]:
-                res.violations.append(Violation(signature=f"{prop}:T3:{key}:native-monitor", what=f"native contract monitor of {key} failed: {f['observed']}", input={"contract": key, "input_repr": f["input_repr"]}, contract="native monitor", observed=f["observed"], tier="T3"))
+                res.violations.append(Violation(signature=f"{prop}:T3:{key}:native-monitor", what=f"native contract monitor of {key} failed: {f['observed']}", input={"contract": key, "input_repr": f["input_repr"], "seed": ctx.seed, "n": o["cross"]["evaluations"]}, contract="native monitor", observed=f["observed"], tier="T3"))
     res.extra["t1_fully_discharged"] = fully
     res.extra["t1_baseline_fully_discharged"] = sorted(baseline & set(keys))
     return res
@@ -204,6 +204,21 @@ def replay_t1(modules: list[str], record: dict) -> bool:
         print("replay on the real function:", msg)
         if msg is not None:
             return True
+    if key and "input_repr" in inp and key in natives and natives[key].get("gen"):
+        import random
+
+        rng = random.Random(f"{inp.get('seed', 0)}:{key}")
+        for _ in range(int(inp.get("n", 3000)) * 10):
+            args_ = natives[key]["gen"](rng)
+            if natives[key].get("repr", repr)(args_)[:2000] == inp["input_repr"]:
+                try:
+                    msg = natives[key]["monitor"](args_)
+                except Exception as e:
+                    msg = f"{type(e).__name__}: {e}"
+                print("replay on the real function:", msg)
+                return msg is not None
+        print("recorded input was not regenerated")
+        return False
     # re-run the obligation itself
     if key:
         class _C:
